@@ -20,6 +20,8 @@ pub fn def() -> PropDef {
         needed_probes: &["send_parked", "c12_prefix_checked", "c12_unbounded_send_checked", "c12_stop_with_backlog"],
         quick_runs: 30_000,
         thorough_runs: 2_000_000,
+        block: 1,
+        flavours: &["tokio"],
     }
 }
 
